@@ -552,8 +552,10 @@ static int dbm_load(struct module_data *m, HIO_HANDLE *f, const int start)
 	ret |= libxmp_iff_register(handle, "VENV", get_venv);
 	ret |= libxmp_iff_register(handle, "PENV", get_penv);
 
-	if (ret != 0)
+	if (ret != 0) {
+		libxmp_iff_release(handle);
 		return -1;
+	}
 
 	strncpy(mod->name, name, XMP_NAME_SIZE);
 	snprintf(mod->type, XMP_NAME_SIZE, "DigiBooster Pro %d.%02x DBM0",
